@@ -213,8 +213,23 @@ fn edit_node(rng: &mut Rng, node: &Spec, pool: &Pool, kinds: &mut Vec<&'static s
     }
     Spec::Original { text, name } => match rng.below(3) {
       0 => {
-        kinds.push("original_name");
-        Spec::Original { text: text.clone(), name: format!("{name}.x") }
+        // small variations a normalising hash would swallow
+        let variant = match rng.below(6) {
+          0 if name.contains('/') => name.replace('/', "\\"),
+          0 | 1 if name.contains('\\') => name.replace('\\', "/"),
+          2 => {
+            let mut c = name.chars();
+            match c.next() {
+              Some(f) if f.is_ascii_lowercase() => f.to_ascii_uppercase().to_string() + c.as_str(),
+              _ => format!("{name}.x"),
+            }
+          }
+          3 => format!("./{name}"),
+          4 => format!("{name} "),
+          _ => format!("{name}.x"),
+        };
+        kinds.push(if variant.ends_with(".x") { "original_name" } else { "original_name_variant" });
+        Spec::Original { text: text.clone(), name: variant }
       }
       1 => {
         kinds.push("leaf_type");
@@ -286,7 +301,7 @@ fn edit_node(rng: &mut Rng, node: &Spec, pool: &Pool, kinds: &mut Vec<&'static s
       let mut o = ops.clone();
       if o.is_empty() || rng.chance(1, 6) {
         kinds.push("replacement_added");
-        o.push(Op { start: 0, end: 0, content: "k".into(), name: None, enforce: 1, plain_api: true });
+        o.push(Op { start: 0, end: 0, content: "k".into(), name: None, enforce: 1, plain_api: true, observe_before: false });
       } else {
         let i = rng.below(o.len());
         match rng.below(6) {
